@@ -33,7 +33,8 @@ PLAN = {
     'C11': {'quick': [('MC_core.tla', 'MC_err.cfg')], 'thorough': [('MC_core.tla', 'MC_err.cfg')]},
     'C13': {'quick': [('MC_hist.tla', 'MC_hist.cfg')], 'thorough': [('MC_hist.tla', 'MC_hist.cfg'), ('MC_hist.tla', 'MC_hist_big.cfg')]},
     'C14': {'quick': [('MC_hist.tla', 'MC_hist.cfg')], 'thorough': [('MC_hist.tla', 'MC_hist.cfg'), ('MC_hist.tla', 'MC_hist_big.cfg')]},
-    'C16': {'quick': [('MC_core.tla', 'MC_stop_s.cfg'), ('MC_core.tla', 'MC_live_stop.cfg')], 'thorough': [('MC_core.tla', 'MC_stop_s.cfg'), ('MC_core.tla', 'MC_stop.cfg'), ('MC_core.tla', 'MC_live_stop.cfg')]},
+    'C16': {'quick': [('MC_core.tla', 'MC_stop_s.cfg'), ('MC_stopt.tla', 'MC_stopt.cfg'), ('MC_core.tla', 'MC_live_stop.cfg')],
+            'thorough': [('MC_core.tla', 'MC_stop_s.cfg'), ('MC_core.tla', 'MC_stop.cfg'), ('MC_stopt.tla', 'MC_stopt.cfg'), ('MC_core.tla', 'MC_live_stop.cfg')]},
     'C18': {'quick': [('MC_one.tla', 'MC_expect_s.cfg')], 'thorough': [('MC_one.tla', 'MC_expect.cfg')]},
     'C17': {'quick': [('MC_wal.tla', 'MC_wal.cfg')], 'thorough': [('MC_wal.tla', 'MC_wal.cfg')]},
     'C15': {'quick': [('MC_core.tla', 'MC_idle.cfg')], 'thorough': [('MC_core.tla', 'MC_idle.cfg'), ('MC_core.tla', 'MC_idle_big.cfg')]},
@@ -47,6 +48,7 @@ REQUIRED = {
     'MC_late.cfg': ['DRegister'],
     'MC_stop_s.cfg': ['DStopGo', 'DStopWaitEnd', 'DCancelRL', 'HStopBegin', 'HStopWaitEnd'],
     'MC_stop.cfg': ['DStopGo', 'DStopWaitEnd', 'DCancelRL', 'HStopBegin', 'HStopWaitEnd'],
+    'MC_stopt.cfg': ['DStopBeginT', 'DStopBody', 'DIdleTimeout', 'DStopWaitEnd'],
     'MC_wal.cfg': ['WalWrite', 'WalOpen'],
     'MC_expect_s.cfg': ['DExpectBegin', 'DExpectEnd'],
     'MC_expect.cfg': ['DExpectBegin', 'DExpectEnd'],
